@@ -64,6 +64,12 @@ pub fn v1_cfg(t: &Table, red: Option<u16>) -> String {
 
 /// release behaviour / disabled layer of v2 entries are drawn per entry from `rb` / `dis` bit masks
 pub fn v2_cfg(t: &Table, first_release: u32, disabled_l1: u32, red: Option<u16>, min_idle: Option<u32>) -> String {
+    v2_cfg_mixed(t, first_release, disabled_l1, red, min_idle, 0)
+}
+
+/// as `v2_cfg`, with per-entry timeouts: entry j gets `timeout * (1 + two bits of tmix)`, so that
+/// overlapping chords on a shared key wait for different lengths of time
+pub fn v2_cfg_mixed(t: &Table, first_release: u32, disabled_l1: u32, red: Option<u16>, min_idle: Option<u32>, tmix: u32) -> String {
     let mut s = String::from("(defcfg concurrent-tap-hold yes");
     if let Some(d) = red {
         s.push_str(&format!(" rapid-event-delay {d}"));
@@ -78,7 +84,7 @@ pub fn v2_cfg(t: &Table, first_release: u32, disabled_l1: u32, red: Option<u16>,
         s.push_str(&format!(
             ") {} {} {} ({})",
             MARKERS[j],
-            t.timeout,
+            t.timeout * (1 + (tmix >> (2 * (j % 16)) & 3)),
             if first_release >> j & 1 == 1 { "first-release" } else { "all-released" },
             if disabled_l1 >> j & 1 == 1 { "l1" } else { "" }
         ));
@@ -402,10 +408,11 @@ pub fn gen(tier: &str, seed: u64) -> Vec<String> {
                 break t;
             }
         };
-        let cfg = v2_cfg(&t, r.next() as u32, if r.chance(1, 3) { r.next() as u32 } else { 0 },
-            match r.below(3) { 0 => None, 1 => Some(0), _ => Some(3) }, if r.chance(1, 4) { Some(*r.pick(&[5u32, 12, 40])) } else { None });
+        let tmix = if i % 2 == 1 { r.next() as u32 } else { 0 };
+        let cfg = v2_cfg_mixed(&t, r.next() as u32, if r.chance(1, 3) { r.next() as u32 } else { 0 },
+            match r.below(3) { 0 => None, 1 => Some(0), _ => Some(3) }, if r.chance(1, 4) { Some(*r.pick(&[5u32, 12, 40])) } else { None }, tmix);
         let tt = t.timeout;
-        let gaps = [0, 0, 1, 1, 2, tt - 1, tt, tt + 1];
+        let gaps = [0, 0, 1, 1, 2, tt - 1, tt, tt + 1, 2 * tt - 1, 2 * tt + 1, 3 * tt];
         let n_ev = if i % 20 == 0 { r.range(34, 70) } else { r.range(2, 16) } as usize;
         let nk = if r.chance(1, 2) { t.n } else { 8 };
         let h = consistent_history(&mut r, &codes[..nk.max(2)], n_ev, &gaps, 400);
